@@ -57,8 +57,8 @@ def run_case(case):
     tin = xf.total_in(cfg)
     A = xf.slice_operator(lambda ins: core.libcall(fn, ins), cfg)          # (tout, tin)
     g = max(1.0, core.gain(A))
-    x = core.make(case['rx'], [N, C, tin])
-    y = core.make(case['ry'], [N, C, tin])
+    x = xf.make_flat(case['rx'], cfg, N, C)
+    y = xf.make_flat(case['ry'], cfg, N, C)
     mx, my = core.maxabs(x), core.maxabs(y)
 
     def T(v):
